@@ -466,6 +466,14 @@ where
     /// Build a [`Tree`] from the distance matrix using the
     /// [UPGMA](https://en.wikipedia.org/wiki/UPGMA) algorithm
     pub fn upgma(&self) -> Result<Tree, MatrixError> {
+        // Every row of the matrix needs its taxon
+        if self.taxa.len() != self.size {
+            return Err(MatrixError::SizeError {
+                size: self.size,
+                n_taxa: self.taxa.len(),
+            });
+        }
+
         // Setup
         let mut dm = (*self).clone();
         let mut card = vec![1; dm.size];
